@@ -610,6 +610,165 @@ class _UnpackViaTemp(ast.NodeTransformer):
         return node
 
 
+
+class _AugAssignCounters(ast.NodeTransformer):
+    """x += c -> x = x + c  (and -=) where c is an integer literal: integer counters (an in-place `+=` on an array by an
+    integer literal does not occur in the package; the suite validation of the rewritten tree covers the claim)"""
+    def __init__(self):
+        self.count = 0
+
+    def visit_AugAssign(self, node):
+        if isinstance(node.op, (ast.Add, ast.Sub)) and isinstance(node.value, ast.Constant) and type(node.value.value) is int \
+                and isinstance(node.target, (ast.Name, ast.Attribute)):
+            self.count += 1
+            tgt = node.target
+            load = ast.Name(id=tgt.id, ctx=ast.Load()) if isinstance(tgt, ast.Name) else ast.Attribute(value=tgt.value, attr=tgt.attr, ctx=ast.Load())
+            return ast.copy_location(ast.Assign(targets=[tgt], value=ast.BinOp(left=load, op=node.op, right=node.value)), node)
+        return node
+
+
+def _init_only_attrs(sources: Sources) -> set:
+    """names A such that every store to `<anything>.A` in the package is inside an `__init__`, A is not a method / property
+    / class attribute of any class, and no setattr/delattr/__dict__ trick is involved"""
+    stored_in_init, stored_elsewhere, defined = set(), set(), set()
+    for rel, s in sources.items():
+        try:
+            tree = ast.parse(s)
+        except SyntaxError:
+            continue
+        for cls in ast.walk(tree):
+            if isinstance(cls, ast.ClassDef):
+                for st in cls.body:
+                    if isinstance(st, (ast.FunctionDef, ast.AsyncFunctionDef)):
+                        defined.add(st.name)
+                    elif isinstance(st, (ast.Assign, ast.AnnAssign)):
+                        for t in (st.targets if isinstance(st, ast.Assign) else [st.target]):
+                            for n in ast.walk(t):
+                                if isinstance(n, ast.Name):
+                                    defined.add(n.id)
+        def walk(node, in_init):
+            for ch in ast.iter_child_nodes(node):
+                ii = in_init
+                if isinstance(ch, (ast.FunctionDef, ast.AsyncFunctionDef)):
+                    ii = ch.name == "__init__"
+                if isinstance(ch, ast.Attribute) and isinstance(ch.ctx, (ast.Store, ast.Del)):
+                    (stored_in_init if (ii and isinstance(ch.value, ast.Name) and ch.value.id == "self" and isinstance(ch.ctx, ast.Store)) else stored_elsewhere).add(ch.attr)
+                if isinstance(ch, ast.Call) and isinstance(ch.func, ast.Name) and ch.func.id in ("setattr", "delattr"):
+                    stored_elsewhere.add("*")
+                walk(ch, ii)
+        walk(tree, False)
+    if "*" in stored_elsewhere:
+        return set()
+    return stored_in_init - stored_elsewhere - defined
+
+
+def _hoist_receivers(sources: Sources) -> Optional[Sources]:
+    """In every method other than __init__, an attribute `self.A` that is only ever assigned in constructors and is read at
+    least twice is read once into a local (`_h_A = self.A` as the first statement) and the local is used instead."""
+    attrs = _init_only_attrs(sources)
+    out = dict(sources)
+    total = 0
+    for rel, s in sources.items():
+        try:
+            tree = ast.parse(s)
+        except SyntaxError:
+            continue
+        n = 0
+        for cls in ast.walk(tree):
+            if not isinstance(cls, ast.ClassDef):
+                continue
+            for fn in cls.body:
+                if not isinstance(fn, ast.FunctionDef) or fn.name == "__init__" or not fn.args.args or fn.args.args[0].arg != "self":
+                    continue
+                if any(isinstance(d, ast.Name) and d.id in ("staticmethod", "classmethod", "property") for d in fn.decorator_list):
+                    continue
+                # `self` must not be re-bound, and nested defs must not take their own `self`
+                if any(isinstance(x, ast.Name) and x.id == "self" and isinstance(x.ctx, ast.Store) for x in ast.walk(fn)):
+                    continue
+                if any(isinstance(x, (ast.FunctionDef, ast.Lambda)) and x is not fn and any(a.arg == "self" for a in x.args.args) for x in ast.walk(fn)):
+                    continue
+                uses = {}
+                for x in ast.walk(fn):
+                    if isinstance(x, ast.Attribute) and isinstance(x.ctx, ast.Load) and isinstance(x.value, ast.Name) and x.value.id == "self" and x.attr in attrs:
+                        uses.setdefault(x.attr, []).append(x)
+                hoist = sorted(a for a, u in uses.items() if len(u) >= 2)
+                if not hoist:
+                    continue
+
+                class R(ast.NodeTransformer):
+                    def visit_Attribute(self, node):
+                        self.generic_visit(node)
+                        if isinstance(node.ctx, ast.Load) and isinstance(node.value, ast.Name) and node.value.id == "self" and node.attr in hoist:
+                            return ast.copy_location(ast.Name(id="_h_" + node.attr, ctx=ast.Load()), node)
+                        return node
+
+                body = [R().visit(st) for st in fn.body]
+                k = 1 if (body and isinstance(body[0], ast.Expr) and isinstance(body[0].value, ast.Constant) and isinstance(body[0].value.value, str)) else 0
+                pre = [ast.copy_location(ast.Assign(targets=[ast.Name(id="_h_" + a, ctx=ast.Store())],
+                                                     value=ast.Attribute(value=ast.Name(id="self", ctx=ast.Load()), attr=a, ctx=ast.Load())), fn.body[0]) for a in hoist]
+                fn.body = body[:k] + pre + body[k:]
+                n += len(hoist)
+        if n:
+            ast.fix_missing_locations(tree)
+            out[rel] = ast.unparse(tree) + "\n"
+            total += n
+    return out if total else None
+
+
+_PURE_BUILTINS = {"len", "float", "int", "abs", "min", "max", "bool", "range", "tuple"}
+_PURE_NP = {"sum", "mean", "max", "min", "exp", "log", "sqrt", "abs", "zeros", "ones", "empty", "zeros_like", "ones_like", "arange", "asarray",
+            "array", "log1p", "isfinite", "isnan", "any", "all", "where", "dot", "eye", "diag", "clip", "floor", "ceil", "argmax", "argmin",
+            "cumsum", "concatenate", "maximum", "minimum", "full", "shape", "atleast_1d", "atleast_2d", "prod", "square", "power"}
+
+
+def _pure_expr(e) -> bool:
+    for x in ast.walk(e):
+        if isinstance(x, (ast.Await, ast.Yield, ast.YieldFrom, ast.NamedExpr, ast.Lambda, ast.ListComp, ast.SetComp, ast.DictComp, ast.GeneratorExp, ast.Starred)):
+            return False
+        if isinstance(x, ast.Call):
+            f = x.func
+            if isinstance(f, ast.Name) and f.id in _PURE_BUILTINS:
+                continue
+            if isinstance(f, ast.Attribute) and isinstance(f.value, ast.Name) and f.value.id in ("np", "numpy") and f.attr in _PURE_NP:
+                continue
+            return False
+    return True
+
+
+def _rw(st):
+    """(written names, read names) of `name = pure-expr`; None if the statement is of another kind"""
+    if not (isinstance(st, ast.Assign) and len(st.targets) == 1 and isinstance(st.targets[0], ast.Name) and _pure_expr(st.value)):
+        return None
+    return {st.targets[0].id}, {x.id for x in ast.walk(st.value) if isinstance(x, ast.Name)}
+
+
+class _SwapIndependentAssignments(ast.NodeTransformer):
+    """Two adjacent `name = <pure expression>` statements that neither read nor write each other's target are exchanged
+    (pure: constants, names, attribute / subscript reads, operators, and calls of len/float/int/abs/min/max and of a fixed
+    list of side-effect-free numpy functions -- no random draws, no method calls).  Non-overlapping pairs, every block."""
+    def __init__(self):
+        self.count = 0
+
+    def _swap(self, body):
+        i = 0
+        while i + 1 < len(body):
+            a, b = _rw(body[i]), _rw(body[i + 1])
+            if a and b and not (a[0] & (b[0] | b[1])) and not (b[0] & a[1]):
+                body[i], body[i + 1] = body[i + 1], body[i]
+                self.count += 1
+                i += 2
+            else:
+                i += 1
+
+    def generic_visit(self, node):
+        super().generic_visit(node)
+        for f in ("body", "orelse", "finalbody"):
+            v = getattr(node, f, None)
+            if isinstance(v, list) and v and isinstance(v[0], ast.stmt):
+                self._swap(v)
+        return node
+
+
 def _internal_calls_by_keyword(sources: Sources) -> Optional[Sources]:
     """every positional argument of a call that resolves to exactly one function / class of the package (plain
     parameters) is passed by keyword instead -- the callee binds the same values"""
@@ -672,4 +831,7 @@ def global_benign_variants() -> List[Variant]:
         Variant("global-benign-return-via-temp", "benign", _rewrite_all(_ReturnViaTemp)),
         Variant("global-benign-unpack-via-temp", "benign", _rewrite_all(_UnpackViaTemp)),
         Variant("global-benign-internal-calls-by-keyword", "benign", _internal_calls_by_keyword),
+        Variant("global-benign-counter-augassign-expanded", "benign", _rewrite_all(_AugAssignCounters)),
+        Variant("global-benign-constructor-attributes-hoisted", "benign", _hoist_receivers),
+        Variant("global-benign-independent-assignments-swapped", "benign", _rewrite_all(_SwapIndependentAssignments)),
     ]
